@@ -31,6 +31,9 @@ type Document struct {
 	parts map[string][]byte
 	// 图片ID计数器，确保每个图片都有唯一的ID
 	nextImageID int
+	// 脚注/尾注管理器与编号管理器（每个文档独立）
+	footnoteManager  *FootnoteManager
+	numberingManager *NumberingManager
 	// 打开的文档中 styles.xml 关系原有的ID（保存时原样写回；为空表示使用 rId1）
 	stylesRelID string
 }
